@@ -1,5 +1,21 @@
+//! Checks for `astria-sequencer-relayer`: C12 (batching), C07 part B (relayer -> conductor data
+//! path + tamper oracle), C11 (crash/restart fault enumeration).
+
+mod blocks;
+mod c07;
+mod c11;
+mod c12;
+mod decode;
+
 fn main() {
-    let (id, _args) = vcommon::split_args();
-    eprintln!("vrelayer does not host property {id} yet");
-    std::process::exit(2);
+    let (id, args) = vcommon::split_args();
+    match id.as_str() {
+        "C12" => c12::run(&args),
+        "C07" => c07::run(&args),
+        "C11" => c11::run(&args),
+        other => {
+            eprintln!("vrelayer does not host property {other}");
+            std::process::exit(2);
+        }
+    }
 }
